@@ -3,7 +3,7 @@ import copy
 import itertools
 import re
 
-from extract import box_kinds, char_table
+from extract import box_kinds, char_table, content_tables
 from harness import boxtree as bt
 from harness import docs
 from vlib import sx
@@ -42,6 +42,97 @@ def visible_chars(text):
 
 
 CSS_WHITE = ' \t\n\r\f'      # the characters the white-space property acts on (css-text-3 4.1)
+
+
+def reference_transform(text, text_transform, hyphens):
+    """css-text-3 2.1 / 6.1 on one text run."""
+    import unicodedata
+    if text_transform == 'uppercase':
+        text = text.upper()
+    elif text_transform == 'lowercase':
+        text = text.lower()
+    elif text_transform == 'capitalize':
+        out, start = '', True
+        for ch in text:
+            cat = unicodedata.category(ch)[0]
+            if start and cat in 'LN':
+                out += ch.upper()
+                start = False
+            else:
+                out += ch
+                if cat == 'Z':
+                    start = True
+        text = out
+    elif text_transform == 'full-width':
+        text = ''.join('\u3000' if c == ' ' else chr(ord(c) + 0xfee0) if 0x21 <= ord(c) <= 0x7e else c for c in text)
+    if hyphens == 'none':
+        text = text.replace('\xad', '')
+    return text
+
+
+def transform_violation(before_box, expected, result):
+    """process_text_transform: every text run of the inline content of the box is transformed as its own
+    style says (the fullwidth form of '-' is accepted as U+FF0D or, as the code has it, U+2212)."""
+    from weasyprint.formatting_structure import boxes
+    texts = [b for b, _ in walk_real(result) if isinstance(b, boxes.TextBox)]
+    for box, (original, want, must) in zip(texts, expected):
+        got = box.text.replace('\u2212', '\uff0d')
+        want = want.replace('\u2212', '\uff0d')
+        if got != want and not (not must and box.text == original):
+            return (f'text-transform:{box.style["text_transform"]} hyphens:{box.style["hyphens"]} turned '
+                    f'{original!r} into {box.text!r}, expected {want!r}')
+    return None
+
+
+def transform_expectations(box):
+    """[(original text, transformed text, must be transformed)] for the text boxes in tree order: the
+    text runs reached from the box through inline boxes only belong to its inline content."""
+    from weasyprint.formatting_structure import boxes
+    out = []
+
+    def visit(b, reached):
+        if isinstance(b, boxes.TextBox):
+            out.append((b.text, reference_transform(b.text, b.style['text_transform'], b.style['hyphens']), reached))
+            return
+        for child in getattr(b, 'children', ()):
+            visit(child, reached and not b.is_running() and isinstance(child, (boxes.TextBox, boxes.InlineBox)))
+    visit(box, True)
+    return out
+
+
+def empty_column_groups(box):
+    """[(column group box, number of columns its span attribute asks for)] for groups without any child."""
+    from weasyprint.formatting_structure import boxes
+    out = []
+    for b, _ in walk_real(box):
+        if isinstance(b, boxes.TableColumnGroupBox) and not b.children:
+            value = bt.parse_attr(b.element, 'span')
+            out.append((b, max(value, 1) if value is not None else 1))
+    return out
+
+
+def flow_text(box):
+    """Text of the inline content of a box in normal flow (None when some run does not collapse)."""
+    from weasyprint.formatting_structure import boxes
+    parts = []
+
+    def visit(b):
+        for child in b.children:
+            if not child.is_in_normal_flow():
+                continue
+            if isinstance(child, boxes.TextBox):
+                if child.style['white_space'] not in COLLAPSE:
+                    raise ValueError
+                parts.append(child.text)
+            elif isinstance(child, boxes.InlineBox):
+                visit(child)
+            else:
+                parts.append('\ufffc')
+    try:
+        visit(box)
+    except ValueError:
+        return None
+    return ''.join(parts)
 
 
 def counter_missing(required, got):
@@ -230,6 +321,15 @@ def tables_violation(box, allow_known=True):
         what = tables_violation(child, allow_known)
         if what:
             return what
+    if box.is_table_wrapper:
+        seen_table = False
+        for child in box.children:
+            if isinstance(child, boxes.TableBox):
+                seen_table = True
+            elif isinstance(child, boxes.TableCaptionBox):
+                side = child.style['caption_side']
+                if (side == 'top') == seen_table:
+                    return f'a caption with caption-side: {side} is {"after" if seen_table else "before"} the table'
     if isinstance(box, boxes.TableBox) and hasattr(box, 'column_groups'):
         for group in box.children:
             what = group_slots_violation(group, allow_known)
@@ -336,31 +436,152 @@ DISPLAYS = [
     'inline flow-root', 'block flow']
 
 
-def random_dom(rng, depth, ws='normal', cap=False, cap_bottom=False, displays=None):
-    """[display, float, position, ws, cap, cap_bottom, attrs, text, kids, tail, declared] (specified values)."""
+INHERITED0 = {'ws': 'normal', 'tt': 'none', 'cap_bottom': False, 'hyph': False, 'quotes': 'auto', 'lst': 'disc',
+              'outside': True}
+TT_VALUES = ['none', 'capitalize', 'uppercase', 'lowercase', 'full-width']
+QUOTES = ['auto', 'none', [['«'], ['»']], [['a', '('], ['b', '.']], [['“', '‘', '-'], ['”', '’', '-']]]
+LIST_TYPES = ['disc', 'circle', 'square', 'none', 'disc', "'x '", "' '"]
+CONTENT_ITEMS = ['open-quote', 'close-quote', 'no-open-quote', 'no-close-quote', 'open-quote', 'close-quote']
+PSEUDO_DISPLAYS = ['inline', 'inline', 'inline', 'block', 'inline-block', 'none', 'table-cell', 'list-item',
+                   'inline list-item', 'flex']
+
+
+def tt_of(node):
+    return node[4] if isinstance(node[4], str) else ('capitalize' if node[4] else 'none')
+
+
+def extra(node):
+    return node[12] if len(node) > 12 else {}
+
+
+_COUNTER_STYLE = []
+
+
+def document_counter_style():
+    """The counter styles of a rendered document (predefined styles come from the user-agent style sheet)."""
+    if not _COUNTER_STYLE:
+        from weasyprint import DEFAULT_OPTIONS
+        from weasyprint.css.counters import CounterStyle
+        from weasyprint.document import Document
+        html = docs.html('<p>')
+        _, _, font_config = docs._env()
+        counter_style = CounterStyle()
+        Document._build_layout_context(html, font_config, counter_style, dict(DEFAULT_OPTIONS))
+        _COUNTER_STYLE.append(counter_style)
+    return _COUNTER_STYLE[0]
+
+
+def marker_text(list_type):
+    """`counter_style.render_marker(type, 0)` (counters are C15's: only value-independent types are used)."""
+    if list_type == 'none':
+        return None
+    value = ('string', list_type[1:-1]) if list_type.startswith("'") else list_type
+    return document_counter_style().render_marker(value, 0) or None
+
+
+def random_content(rng):
+    """A computed `content` list: [['s', text] | ['q', keyword] | ['a', attribute name]]."""
+    items = []
+    for _ in range(rng.choice([1, 1, 2, 3])):
+        r = rng.random()
+        if r < 0.45:
+            items.append(['s', rng.choice(['', 'x', ' ', '(', 'a b', ' \n', ' ', 'é 1'])])
+        elif r < 0.9:
+            items.append(['q', rng.choice(CONTENT_ITEMS)])
+        else:
+            items.append(['a', rng.choice(['colspan', 'span', 'nosuch'])])
+    return items
+
+
+def random_pseudo(rng, inh, marker=False):
+    """{'display', 'float', 'position', 'declared', 'content' (None: normal), inherited values}."""
+    p = dict(inh)
+    p['display'] = rng.choice(['inline'] * 6 + ['block'] * 3 + ['inline-block', 'inline-block', 'none'] if marker
+                              else PSEUDO_DISPLAYS)
+    p['float'] = rng.choice(['none'] * 8 + ['left'])
+    p['position'] = rng.choice(['static'] * 8 + ['absolute', 'relative'])
+    p['declared'] = {}
+    if rng.random() < 0.25:
+        p['ws'] = rng.choice(WS_VALUES)
+        p['declared']['white-space'] = p['ws']
+    if rng.random() < 0.2:
+        p['tt'] = rng.choice(TT_VALUES)
+        p['declared']['text-transform'] = p['tt']
+    if rng.random() < 0.15:
+        p['quotes'] = rng.choice(QUOTES)
+        p['declared']['quotes'] = css_quotes(p['quotes'])
+    if marker:
+        p['content'] = random_content(rng) if rng.random() < 0.35 else None
+    else:
+        p['content'] = random_content(rng) if rng.random() < 0.9 else None
+    return p
+
+
+def css_string(text):
+    return "'" + ''.join(f'\\{ord(c):06x}' for c in text) + "'"
+
+
+def css_quotes(q):
+    if isinstance(q, str):
+        return q
+    return ' '.join(f'{css_string(o)} {css_string(c)}' for o, c in zip(q[0], q[1]))
+
+
+def css_content(items):
+    if items is None:
+        return 'normal'
+    out = []
+    for kind, value in items:
+        out.append(css_string(value) if kind == 's' else value if kind == 'q' else f'attr({value})')
+    return ' '.join(out)
+
+
+def random_dom(rng, depth, inh=None, displays=None, generated=True):
+    """[display, float, position, ws, tt, cap_bottom, attrs, text, kids, tail, declared, ident, extra]
+    (specified display / float / position, computed values of the inherited properties)."""
+    inh = dict(inh or INHERITED0)
     display = rng.choice(displays or DISPLAYS)
+    if generated and rng.random() < 0.12:
+        display = rng.choice(['list-item', 'list-item', 'inline list-item', 'flow-root list-item'])
     float_ = rng.choice(['none'] * 10 + ['left', 'right'])
     position = rng.choice(['static'] * 12 + ['relative', 'absolute', 'fixed', 'running'])
     declared = {}
     if rng.random() < 0.25:
-        ws = rng.choice(WS_VALUES)
-        declared['white-space'] = ws
-    if rng.random() < 0.12:
-        cap = not cap
-        declared['text-transform'] = 'capitalize' if cap else 'none'
+        inh['ws'] = rng.choice(WS_VALUES)
+        declared['white-space'] = inh['ws']
+    if rng.random() < 0.15:
+        inh['tt'] = rng.choice(TT_VALUES)
+        declared['text-transform'] = inh['tt']
     if rng.random() < 0.1:
-        cap_bottom = not cap_bottom
-        declared['caption-side'] = 'bottom' if cap_bottom else 'top'
+        inh['cap_bottom'] = not inh['cap_bottom']
+        declared['caption-side'] = 'bottom' if inh['cap_bottom'] else 'top'
+    if rng.random() < 0.08:
+        inh['hyph'] = not inh['hyph']
+        declared['hyphens'] = 'none' if inh['hyph'] else 'manual'
+    if generated and rng.random() < 0.12:
+        inh['quotes'] = rng.choice(QUOTES)
+        declared['quotes'] = css_quotes(inh['quotes'])
+    if generated and rng.random() < 0.12:
+        inh['lst'] = rng.choice(LIST_TYPES)
+        declared['list-style-type'] = inh['lst']
+    if generated and rng.random() < 0.1:
+        inh['outside'] = not inh['outside']
+        declared['list-style-position'] = 'outside' if inh['outside'] else 'inside'
     attrs = [None, None, None]
     if display.startswith('table-') or rng.random() < 0.05:
         attrs = [rng.choice([None, None, '1', '2', '3', '4', '0', 'x']),
                  rng.choice([None, None, '1', '2', '3', '4', '0']), rng.choice([None, None, '1', '2', '3', '0'])]
+    ext = dict(inh)
+    ext['before'] = random_pseudo(rng, inh) if generated and rng.random() < 0.2 else None
+    ext['after'] = random_pseudo(rng, inh) if generated and rng.random() < 0.2 else None
+    ext['marker'] = random_pseudo(rng, inh, marker=True) if generated and rng.random() < 0.3 else None
     text = bt.random_text(rng) if rng.random() < 0.6 else ''
     kids = []
     if depth > 0 and display != 'none':
-        kids = [random_dom(rng, depth - 1, ws, cap, cap_bottom, displays) for _ in range(rng.choice([0, 0, 1, 1, 2, 3, 4]))]
+        kids = [random_dom(rng, depth - 1, inh, displays, generated) for _ in range(rng.choice([0, 0, 1, 1, 2, 3, 4]))]
     tail = bt.random_text(rng) if rng.random() < 0.55 else ''
-    return [display, float_, position, ws, cap, cap_bottom, attrs, text, kids, tail, declared, rng.randrange(10 ** 9)]
+    return [display, float_, position, inh['ws'], inh['tt'], inh['cap_bottom'], attrs, text, kids, tail, declared,
+            rng.randrange(10 ** 9), ext]
 
 
 def esc(text):
@@ -368,7 +589,7 @@ def esc(text):
 
 
 def dom_html(node):
-    display, float_, position, _ws, _cap, _cb, attrs, text, kids, tail, declared, ident = node
+    display, float_, position, _ws, _tt, _cb, attrs, text, kids, tail, declared, ident = node[:12]
     pos = 'running(x)' if position == 'running' else position
     style = f'display:{display};float:{float_};position:{pos}'
     for name, value in declared.items():
@@ -377,6 +598,25 @@ def dom_html(node):
     tag = 'span' if display.startswith('inline') else 'div'
     return (f'<{tag} n="{ident}" style="{style}"{attr}>{esc(text)}{"".join(dom_html(k) for k in kids)}</{tag}>'
             f'{esc(tail)}')
+
+
+def dom_css(node):
+    """Style rules of the pseudo-elements of a subtree."""
+    out = []
+    for name in ('before', 'after', 'marker'):
+        p = extra(node).get(name)
+        if p is None:
+            continue
+        pos = p['position']
+        rule = f'display:{p["display"]};float:{p["float"]};position:{pos}'
+        if name != 'marker' or p['content'] is not None:
+            rule += f';content:{css_content(p["content"])}'
+        for prop, value in p['declared'].items():
+            rule += f';{prop}:{value}'
+        out.append(f'[n="{node[11]}"]::{name}{{{rule}}}')
+    for k in node[8]:
+        out.extend(dom_css(k))
+    return out
 
 
 def validated_display(display):
@@ -396,22 +636,75 @@ def parse_int(value):
         return None
 
 
+TT_WIRE = {'none': '', 'capitalize': 'c', 'uppercase': 'u', 'lowercase': 'l', 'full-width': 'w'}
+
+
+def estyle_wire(display, float_, position, vals):
+    letters = (TT_WIRE[vals['tt']] + ('y' if vals['hyph'] else '') + ('b' if vals['cap_bottom'] else '') +
+               ('o' if vals['outside'] else ''))
+    q = vals['quotes']
+    quotes = q if isinstance(q, str) else [[cps(x) for x in q[0]], [cps(x) for x in q[1]]]
+    return [validated_display(display), float_, position, vals['ws'], letters or '-', quotes]
+
+
+def content_wire(items, attrs):
+    """Computed content: `attr(x)` is the attribute value (computed_values.compute_attr: '' when absent)."""
+    if items is None:
+        return 'inhibit'
+    named = dict(zip(('colspan', 'rowspan', 'span'), attrs))
+    out = []
+    for kind, value in items:
+        if kind == 's':
+            out.append(['s'] + cps(value))
+        elif kind == 'q':
+            out.append(['q', 'open' in value, not value.startswith('no-')])
+        else:
+            out.append(['s'] + cps(named.get(value) or ''))
+    return out
+
+
+def pseudo_wire(p, attrs, marker=False):
+    if p is None:
+        return 'none'
+    st = estyle_wire(p['display'], p['float'], p['position'], p)
+    if marker:
+        text = marker_text(p['lst'])
+        return [st, content_wire(p['content'], attrs), cps(text) if text else 'none']
+    return [st, content_wire(p['content'], attrs)]
+
+
+def default_marker(vals):
+    p = dict(vals)
+    p.update({'display': 'inline', 'float': 'none', 'position': 'static', 'content': None})
+    return p
+
+
 def dom_wire(node):
-    display, float_, position, ws, cap, cap_bottom, attrs, text, kids, tail, _, _ = node
-    letters = ('c' if cap else '') + ('b' if cap_bottom else '')
-    return ['el', validated_display(display), float_, position, ws, letters or '-',
-            [parse_int(a) for a in attrs], cps(text), [dom_wire(k) for k in kids], cps(tail)]
+    display, float_, position, ws, _tt, cap_bottom, attrs, text, kids, tail = node[:10]
+    ext = dict(INHERITED0)
+    ext.update({'ws': ws, 'tt': tt_of(node), 'cap_bottom': cap_bottom})
+    ext.update(extra(node))
+    marker = ext.get('marker') or default_marker(ext)
+    return ['el', estyle_wire(display, float_, position, ext), [parse_int(a) for a in attrs],
+            pseudo_wire(marker, attrs, marker=True), pseudo_wire(ext.get('before'), attrs),
+            pseudo_wire(ext.get('after'), attrs), cps(text), [dom_wire(k) for k in kids], cps(tail)]
+
+
+def plain_el(display, text, kids):
+    return ['el', estyle_wire(display, 'none', 'static', INHERITED0), [None, None, None],
+            pseudo_wire(default_marker(INHERITED0), [None] * 3, marker=True), 'none', 'none', cps(text), kids, []]
 
 
 def document_wire(body_kids, body_text):
-    head = ['el', ['none'], 'none', 'static', 'normal', '-', [None, None, None], [], [], []]
-    body = ['el', ['block', 'flow'], 'none', 'static', 'normal', '-', [None, None, None], cps(body_text),
-            [dom_wire(k) for k in body_kids], []]
-    return ['el', ['block', 'flow'], 'none', 'static', 'normal', '-', [None, None, None], [], [head, body], []]
+    head = plain_el('none', '', [])
+    body = plain_el('block', body_text, [dom_wire(k) for k in body_kids])
+    return plain_el('block', '', [head, body])
 
 
 def document_html(body_kids, body_text):
-    return ('<html><head></head><body>' + esc(body_text) + ''.join(dom_html(k) for k in body_kids) +
+    css = ''.join(rule for k in body_kids for rule in dom_css(k))
+    style = f'<style>{css}</style>' if css else ''
+    return (f'<html><head>{style}</head><body>' + esc(body_text) + ''.join(dom_html(k) for k in body_kids) +
             '</body></html>')
 
 
@@ -457,6 +750,182 @@ def listify(box):
     return box
 
 
+def content_tags(items, quotes, depth):
+    tags = {f'quotes:{quotes if isinstance(quotes, str) else "pairs"}'}
+    levels = 2 if quotes == 'auto' else 0 if quotes == 'none' else len(quotes[0])
+    texts = 0
+    for kind, value in items:
+        if kind == 'q':
+            is_open, insert = 'open' in value, not value.startswith('no-')
+            tags.add('quote:' + value.replace('-quote', ''))
+            if not is_open:
+                if depth == 0:
+                    tags.add('quote:close-at-zero')
+                depth = max(0, depth - 1)
+            if insert and levels and depth > levels - 1:
+                tags.add('quote:depth-clamped')
+            if insert and levels:
+                texts += 1
+            if is_open:
+                depth += 1
+        elif value:
+            texts += 1
+    tags.add('text:merged' if texts > 1 else 'text:none' if texts == 0 else 'text:one')
+    return sorted(tags)
+
+
+def document_tags(kids, out):
+    tags = set()
+    if out.startswith('err:'):
+        tags.add(f'error:{out[4:]}')
+
+    def visit(n, hidden):
+        ext = dict(INHERITED0)
+        ext.update(extra(n))
+        if n[0] == 'none':
+            tags.add('doc:display-none')
+            return
+        if 'list-item' in n[0] and not hidden:
+            m = ext.get('marker') or default_marker(ext)
+            if m['display'] != 'none':
+                if m['content'] is not None:
+                    tags.add('doc:marker-content')
+                if m['content'] is not None or marker_text(m['lst']):
+                    tags.add('doc:marker-outside' if ext['outside'] else 'doc:marker-inside')
+        for name in ('before', 'after'):
+            p = ext.get(name)
+            if p and p['display'] != 'none' and p['content'] is not None:
+                tags.add(f'doc:{name}')
+                if any(k == 'q' for k, _ in p['content']):
+                    tags.add('doc:quote')
+                if 'list-item' in p['display']:
+                    tags.add('doc:pseudo-list-item')
+        if tt_of(n) != 'none':
+            tags.add(f'doc:tt-{tt_of(n)}')
+        if ext['hyph']:
+            tags.add('doc:hyphens-none')
+        if n[1] != 'none' or n[2] in ('absolute', 'fixed'):
+            if n[0].startswith('inline') or n[0].startswith('table-'):
+                tags.add('doc:blockified')
+        previous_none = False
+        for c in n[8]:
+            if previous_none and c[9]:
+                pass
+            if c[0] == 'none' and c[9]:
+                tags.add('doc:tail-merged')
+            visit(c, hidden)
+    for k in kids:
+        visit(k, False)
+    if ' (8203) ' in out:
+        tags.add('doc:marker-filler')
+    return sorted(tags)
+
+
+def size_class(n):
+    return '1' if n <= 1 else '2-4' if n <= 4 else '5-12' if n <= 12 else '13-40' if n <= 40 else '41+'
+
+
+def walk_real(box, parent=None):
+    yield box, parent
+    for child in getattr(box, 'children', ()):
+        yield from walk_real(child, box)
+    for group in getattr(box, 'column_groups', ()):
+        yield from walk_real(group, box)
+
+
+def branch_tags(fn, before, result):
+    """Which branches of the mirrored function the case went through, read off the result tree."""
+    from weasyprint.css import AnonymousStyle
+    from weasyprint.formatting_structure import boxes
+    tags = set()
+    nodes = list(walk_real(result))
+
+    def anon(b):
+        return isinstance(b.style, AnonymousStyle)
+    if fn in ('iib', 'pipeline', 'e2b'):
+        for b, parent in nodes:
+            if isinstance(b, boxes.LineBox) and anon(b):
+                if parent is not None and anon(parent) and len(parent.children) == 1 and type(parent) is boxes.BlockBox:
+                    tags.add('iib:line-in-anonymous-block')
+                else:
+                    tags.add('iib:single-line')
+                if any(c.is_absolutely_positioned() for c in b.children):
+                    tags.add('iib:absolute-in-line')
+                if any(c.is_floated() for c in b.children):
+                    tags.add('iib:float-in-line')
+            if b.leading_collapsible_space and not isinstance(b, boxes.TextBox):
+                tags.add('iib:leading-space-flag')
+            if b.trailing_collapsible_space:
+                tags.add('iib:trailing-space-flag')
+        texts_before = bt.texts_of_ser(before)
+        texts_after = [b.text for b, _ in nodes if isinstance(b, boxes.TextBox)]
+        if texts_before.count('') > texts_after.count(''):
+            tags.add('iib:empty-text-removed')
+        if texts_before.count(' ') > texts_after.count(' '):
+            tags.add('iib:line-start-space-removed')
+    if fn == 'bii':
+        lines_after = sum(1 for b, _ in nodes if isinstance(b, boxes.LineBox))
+        if lines_after > bt.kind_count_ser(before, 'LineBox'):
+            tags.add('bii:line-split')
+        if any(isinstance(b, boxes.InlineBox) and not b.children for b, _ in nodes) and 'bii:line-split' in tags:
+            tags.add('bii:empty-inline-piece')
+    if fn in ('atb', 'pipeline', 'e2b', 'wraptable'):
+        for b, parent in nodes:
+            if anon(b) and not isinstance(b, (boxes.TextBox, boxes.LineBox)):
+                if b.is_table_wrapper:
+                    tags.add('atb:wrapper-inline' if isinstance(b, boxes.InlineBlockBox) else 'atb:wrapper-block')
+                elif isinstance(b, (boxes.TableBox, boxes.TableRowGroupBox, boxes.TableRowBox, boxes.TableCellBox,
+                                    boxes.TableColumnGroupBox, boxes.TableColumnBox)):
+                    tags.add(f'atb:anonymous-{type(b).__name__}')
+            if getattr(b, 'is_header', False):
+                tags.add('atb:header')
+            if getattr(b, 'is_footer', False):
+                tags.add('atb:footer')
+            if isinstance(b, boxes.TableCellBox) and hasattr(b, 'grid_x'):
+                if b.colspan > 1:
+                    tags.add('atb:colspan')
+                if b.rowspan > 1:
+                    tags.add('atb:rowspan')
+            if isinstance(b, boxes.TableCaptionBox) and parent is not None and parent.is_table_wrapper:
+                tags.add('atb:caption-bottom' if b.style['caption_side'] == 'bottom' else 'atb:caption-top')
+        if bt.count_ser(before) > sum(1 for _ in nodes) :
+            tags.add('atb:boxes-removed')
+    if fn in ('flex', 'grid', 'pipeline', 'e2b'):
+        for b, parent in nodes:
+            if b.is_flex_item:
+                tags.add('flex:item')
+            if b.is_grid_item:
+                tags.add('grid:item')
+            if (b.is_flex_item or b.is_grid_item) and type(b) is boxes.BlockBox and parent is not None and \
+                    isinstance(parent, (boxes.FlexContainerBox, boxes.GridContainerBox)) and \
+                    b.style['display'][0] == 'inline':
+                tags.add('item:inline-level-wrapped')
+    return sorted(tags)
+
+
+EXPECTED_BRANCHES = {
+    'inline-in-block': ['iib:line-in-anonymous-block', 'iib:single-line', 'iib:absolute-in-line', 'iib:float-in-line',
+                        'iib:leading-space-flag', 'iib:trailing-space-flag', 'iib:empty-text-removed',
+                        'iib:line-start-space-removed', 'error:AssertionError'],
+    'block-in-inline': ['bii:line-split', 'bii:empty-inline-piece', 'error:AssertionError'],
+    'table-fixup': ['atb:wrapper-block', 'atb:wrapper-inline', 'atb:anonymous-TableBox', 'atb:anonymous-InlineTableBox',
+                    'atb:anonymous-TableRowGroupBox', 'atb:anonymous-TableRowBox', 'atb:anonymous-TableCellBox',
+                    'atb:anonymous-TableColumnGroupBox', 'atb:anonymous-TableColumnBox', 'atb:header', 'atb:footer',
+                    'atb:colspan', 'atb:rowspan', 'atb:caption-top', 'atb:caption-bottom', 'atb:boxes-removed',
+                    'error:AttributeError'],
+    'flex-grid': ['flex:item', 'grid:item', 'item:inline-level-wrapped'],
+    'wrap-table': ['header', 'footer', 'caption-top', 'caption-bottom', 'rowspan0', 'rowspan-clipped', 'colspan',
+                   'empty-column-group', 'stray-rows', 'stray-columns', 'error:KeyError', 'error:AttributeError'],
+    'slots': ['column-skipped', 'groups0', 'groups1', 'groups2', 'groups3', 'groups4'],
+    'content': ['quote:open', 'quote:close', 'quote:no-open', 'quote:no-close', 'quote:depth-clamped',
+                'quote:close-at-zero', 'quotes:none', 'quotes:auto', 'text:merged', 'text:none'],
+    'documents': ['doc:marker-outside', 'doc:marker-inside', 'doc:marker-filler', 'doc:marker-content',
+                  'doc:before', 'doc:after', 'doc:quote', 'doc:tt-uppercase', 'doc:tt-lowercase', 'doc:tt-capitalize',
+                  'doc:tt-full-width', 'doc:hyphens-none', 'doc:blockified', 'doc:tail-merged', 'doc:display-none',
+                  'doc:pseudo-list-item', 'error:KeyError', 'error:AttributeError'],
+}
+
+
 def call_tree_function(fn, box):
     build = build_mod()
     if fn == 'ptt':
@@ -467,8 +936,8 @@ def call_tree_function(fn, box):
 
 class C08(PropCheck):
     id = 'C08'
-    extractors = (box_kinds.generate, char_table.generate)
-    modules = ('WpModel.Props.C08', 'WpModel.Witness.C08')
+    extractors = (box_kinds.generate, char_table.generate, content_tables.generate)
+    modules = ('WpModel.Props.C08', 'WpModel.Props.C08Pipeline', 'WpModel.Witness.C08')
     trusted_base = (
         'modelled, not verified: build.process_whitespace / capitalize / inline_in_block / block_in_inline / '
         'anonymous_table_boxes / table_boxes_children / wrap_improper / wrap_table / flex_children / grid_children / '
@@ -492,6 +961,15 @@ class C08(PropCheck):
         self._tree_sections(run)
         self._table_sections(run)
         self._document_section(run)
+        never = {}
+        for sec in run.sections:
+            expected = EXPECTED_BRANCHES.get(sec.name)
+            if expected:
+                missing = [t for t in expected if not sec.tags.get(t)]
+                if missing:
+                    never[sec.name] = missing
+        run.extra['branches_expected'] = {k: len(v) for k, v in EXPECTED_BRANCHES.items()}
+        run.extra['branches_never_hit'] = never
 
     def _text_sections(self, run):
         from weasyprint.formatting_structure import boxes
@@ -538,6 +1016,7 @@ class C08(PropCheck):
             sec2.add(sx.line('cap', cps(text)), sx.dumps(cps(out)) if not out.startswith('err:') else out,
                      meta={'fn': 'cap', 'text': text}, nontrivial=out != text)
 
+        self._content_section(run)
         sec3 = run.section('is-whitespace', 'build.is_whitespace on text boxes and other boxes; non-trivial = true')
         for _ in range(run.n(600, 6000)):
             if rng.random() < 0.8:
@@ -549,6 +1028,41 @@ class C08(PropCheck):
             out = build.is_whitespace(box)
             sec3.add(sx.line('wspace', bt.ser(box)), str(bool(out)).lower(), meta={'fn': 'wspace', 'tree': node},
                      nontrivial=bool(out))
+
+    def _content_section(self, run):
+        """build.content_to_boxes on a real box: strings and the four quote keywords, every `quotes` style,
+        any incoming quote depth."""
+        from weasyprint.css.counters import CounterStyle
+        from weasyprint.css.targets import TargetCollector
+        from weasyprint.formatting_structure import boxes
+        build = build_mod()
+        rng = run.rng
+        sec = run.section(
+            'content', 'content_to_boxes (compute_content_list) on a real box for lists of strings and open-/close-/'
+            'no-open-/no-close-quote, quotes none / auto / 1-3 pairs, incoming depth 0-4: texts of the boxes and '
+            'the quote depth afterwards; non-trivial = a quote keyword is present')
+        for _ in range(run.n(1500, 30000)):
+            items = [['s', rng.choice(['', 'x', ' ', 'a b'])] if rng.random() < 0.35 else ['q', rng.choice(CONTENT_ITEMS)]
+                     for _ in range(rng.choice([0, 1, 2, 3, 4, 6]))]
+            quotes = rng.choice(QUOTES)
+            depth = rng.choice([0, 0, 1, 2, 3, 4])
+            style = bt.style_from('-', 'normal')
+            style['content'] = tuple(('string', v) if k == 's' else ('quote', v) for k, v in items)
+            style['quotes'] = quotes if isinstance(quotes, str) else (tuple(quotes[0]), tuple(quotes[1]))
+            style['lang'] = None
+            parent = boxes.InlineBox('span', style, None, [])
+            state = [depth]
+
+            def call():
+                result = build.content_to_boxes(style, parent, state, {}, None, TargetCollector(), CounterStyle())
+                text = ''.join(b.text for b in result)
+                assert len(result) <= 1 and all(isinstance(b, boxes.TextBox) for b in result)
+                return f'{sx.dumps(cps(text))} {state[0]}'
+            wire_q = quotes if isinstance(quotes, str) else [[cps(x) for x in quotes[0]], [cps(x) for x in quotes[1]]]
+            sec.add(sx.line('content', wire_q, content_wire(items, [None] * 3), depth), docs.outcome(call),
+                    meta={'fn': 'content', 'items': items, 'quotes': quotes, 'depth': depth},
+                    nontrivial=any(k == 'q' for k, _ in items),
+                    tags=content_tags(items, quotes, depth))
 
     def _display_section(self, run):
         from weasyprint.css import computed_values
@@ -590,11 +1104,18 @@ class C08(PropCheck):
             except Exception:  # noqa: BLE001 - the preparation step itself is compared in its own section
                 return False
         before = bt.ser(box)
-        out = docs.outcome(lambda: show(call_tree_function(fn, box)))
+        n_before = bt.count_ser(before)
+        result = []
+
+        def call():
+            result.append(call_tree_function(fn, box))
+            return show(result[0])
+        out = docs.outcome(call)
         changed = out != sx.dumps(before)
+        branch = branch_tags(fn, before, result[0]) if result else [f'error:{out[4:]}']
         sec.add(sx.line(fn, before), out, meta={'fn': fn, 'tree': node, 'prepared': prepare is not None},
                 nontrivial=changed if nontrivial is None else nontrivial,
-                tags=list(tags) + (['error'] if out.startswith('err:') else []))
+                tags=list(tags) + branch + [f'size:{size_class(n_before)}'])
         return True
 
     def _tree_sections(self, run):
@@ -618,8 +1139,8 @@ class C08(PropCheck):
                     nontrivial=sx.dumps(bt.ser(box)) != sx.dumps(before), tags=[f'root:{node[0]}'])
 
         sec = run.section(
-            'text-transform', 'process_text_transform on real trees (capitalize / none); non-trivial = some text '
-            'changed')
+            'text-transform', 'process_text_transform on real trees (capitalize / uppercase / lowercase / '
+            'full-width / none, hyphens: none); non-trivial = some text changed')
         for _ in range(run.n(400, 8000)):
             node = bt.random_tree(rng, rng.choice([1, 2]), pool=inline_pool, p_out=0.15)
             self._mark_capitalize(rng, node)
@@ -683,8 +1204,10 @@ class C08(PropCheck):
 
     @staticmethod
     def _mark_capitalize(rng, node):
-        if rng.random() < 0.5 and 'c' not in node[1]:
-            node[1] = node[1].replace('-', '') + 'c'
+        if rng.random() < 0.6 and not any(c in node[1] for c in 'culw'):
+            node[1] = node[1].replace('-', '') + rng.choice('cculw')
+        if rng.random() < 0.2 and 'y' not in node[1]:
+            node[1] = node[1].replace('-', '') + 'y'
         for k in node[6]:
             C08._mark_capitalize(rng, k)
 
@@ -718,8 +1241,38 @@ class C08(PropCheck):
             spans = any(c[3][0] not in (None, '1') or c[3][1] not in (None, '1') for c in cells_of(kids))
             line = sx.line('wraptable', bt.ser(tbox), [bt.ser(c) for c in children])
             out = docs.outcome(lambda: show(build.wrap_table(tbox, children)))
+            wt_tags = []
+            if out.startswith('err:'):
+                wt_tags.append(f'error:{out[4:]}')
+            for k in kids:
+                if k[0] == 'TableRowGroupBox' and 'h' in k[1]:
+                    wt_tags.append('header')
+                if k[0] == 'TableRowGroupBox' and 't' in k[1]:
+                    wt_tags.append('footer')
+                if k[0] == 'TableCaptionBox':
+                    wt_tags.append('caption-bottom' if 'b' in k[1] else 'caption-top')
+                if k[0] == 'TableColumnGroupBox' and not k[6]:
+                    wt_tags.append('empty-column-group')
+                if k[0] == 'TableRowBox':
+                    wt_tags.append('stray-rows')
+                if k[0] == 'TableColumnBox':
+                    wt_tags.append('stray-columns')
+            for g in self._grouped_rows(kids):
+                for y, r in enumerate(g[6]):
+                    for c in r[6]:
+                        if c[0] != 'TableCellBox':
+                            continue
+                        rs, cs_ = parse_cell(c, 'rowspan', 0), parse_cell(c, 'colspan', 1)
+                        if rs == 0:
+                            wt_tags.append('rowspan0')
+                        if rs > len(g[6]) - y:
+                            wt_tags.append('rowspan-clipped')
+                        if cs_ > 1:
+                            wt_tags.append('colspan')
+            if ' none)' not in out and re.search(r'TableCellBox [^(]*\([^)]*\) \([^ ]+ \d+ \d+ [1-9]', out):
+                pass
             sec.add(line, out, meta={'fn': 'wraptable', 'table': table, 'kids': kids}, nontrivial=spans,
-                    tags=[kind] + (['adversarial'] if adversarial else []) + (['error'] if out.startswith('err:') else []))
+                    tags=sorted(set([kind] + (['adversarial'] if adversarial else []) + wt_tags)))
             if displays or adversarial or out.startswith('err:'):
                 continue
             # numeric view on fresh boxes; grid_width / grid_height are the arguments of collapse_table_borders
@@ -748,9 +1301,11 @@ class C08(PropCheck):
                           for g in real_table.children]
             impl = f'{sx.dumps(cols_out)} {sx.dumps(groups_out)} {seen["wh"][0]} {seen["wh"][1]}'
             rowspans = any(c[1] != 1 for g in groups_in for r in g for c in r)
+            skipped = any(row and any(b[0] != a[0] + a[1] for a, b in zip(row, row[1:])) or (row and row[0][0] != 0)
+                          for g in groups_out for row in g)
             sec2.add(sx.line('slots', col_in, groups_in), impl,
                      meta={'fn': 'slots', 'cols': col_in, 'groups': groups_in}, nontrivial=rowspans,
-                     tags=[f'groups{min(len(groups_in), 4)}'])
+                     tags=[f'groups{min(len(groups_in), 4)}'] + (['column-skipped'] if skipped else []))
 
     @staticmethod
     def _grouped_columns(items):
@@ -805,6 +1360,7 @@ class C08(PropCheck):
                 tags.append('block-in-inline')
             if any(dom_has(k, lambda n: n[1] != 'none' or n[2] not in ('static', 'relative')) for k in kids):
                 tags.append('out-of-flow')
+            tags += document_tags(kids, out)
             sec.add(sx.line('e2b', wire), out, meta={'fn': 'e2b', 'html': html, 'kids': kids, 'body_text': body_text},
                     nontrivial=bool(re.search(r'\((?!TextBox)\w+Box [fnarchtb]*A ', out)), tags=tags)
 
@@ -836,6 +1392,8 @@ class C08(PropCheck):
         if fn in TREE_FUNCTIONS or fn == 'pw':
             return self._replay_tree(meta)
         if fn == 'e2b':
+            if known_document(meta['kids']):
+                return None     # in the scope of a known finding: no clause can be judged on this document
             return document_violation(meta['html'], meta['kids'], meta['body_text'])
         return None
 
@@ -848,6 +1406,8 @@ class C08(PropCheck):
             box = build.inline_in_block(box) if 'LineBox' not in bt.kinds_of(node) else listify(box)
         source = real_text(box)
         segments = box_segments(box)
+        expectations = transform_expectations(box) if fn == 'ptt' else None
+        empty_groups = empty_column_groups(box) if fn in ('atb', 'pipeline') else []
         malformed = 'LineBox' in bt.kinds_of(node)
         try:
             if fn == 'pw':
@@ -860,14 +1420,23 @@ class C08(PropCheck):
                 return None
             return f'{TREE_FUNCTIONS.get(fn, fn)} raised {type(exc).__name__} on a well-formed tree'
         after = real_text(result)
-        if fn in ('ptt',):
-            return None
+        if fn == 'ptt':
+            return transform_violation(box, expectations, result)
+        if fn == 'pw' and not has_running(node) and box.is_in_normal_flow() and not meta['fcs']:
+            flow = flow_text(result)
+            if flow is not None and '  ' in flow:
+                return f'two consecutive spaces in the inline content after process_whitespace: {flow!r}'
         if visible_chars(after) != visible_chars(source) and not has_running(node):
             return f'{TREE_FUNCTIONS.get(fn, fn)} changed the text: {source!r} -> {after!r}'
         if not has_running(node) and not malformed:
             what = text_reaches_violation(segments, result, TREE_FUNCTIONS.get(fn, fn), processed_by_pw=fn == 'pw')
             if what:
                 return what
+        if fn in ('atb', 'pipeline') and not has_running(node):
+            for group, span in empty_groups:
+                if len(group.children) != span:
+                    return (f'an empty column group with span={span} got {len(group.children)} columns '
+                            '(HTML 4.9.3: the group represents `span` columns)')
         if fn == 'pipeline' and not malformed and not has_running(node):
             return proper_children_violation(result) or tables_violation(result)
         if fn == 'atb' and not has_running(node):
@@ -1098,6 +1667,7 @@ class C08(PropCheck):
             'running-table-part-crash': finding_running_row,
             'inline-table-item-loses-wrapper': finding_inline_table_item,
             'unicode-space-between-table-parts-dropped': finding_nbsp_dropped,
+            'marker-display-none-crash': finding_marker_display_none,
         }
 
     def replay(self, data):
@@ -1126,7 +1696,16 @@ class C08(PropCheck):
         if fn == 'wraptable':
             return self._replay_wraptable(meta)
         if fn == 'e2b':
-            return document_violation(meta['html'], meta['kids'], meta['body_text'], rendered=True)
+            try:
+                what = document_violation(meta['html'], meta['kids'], meta['body_text'])
+            except Exception as exc:  # noqa: BLE001
+                return f'build_formatting_structure raised {type(exc).__name__}: {exc}'
+            if what:
+                return what
+            try:
+                return document_violation(meta['html'], meta['kids'], meta['body_text'], rendered=True)
+            except Exception:  # noqa: BLE001 - box generation succeeded: a layout failure is not C08's clause
+                return None
         if fn in TREE_FUNCTIONS or fn == 'pw':
             return self._replay_tree(meta)
         return None
@@ -1338,6 +1917,138 @@ TABLE_DISPLAYS = ('table', 'inline-table', 'table-row-group', 'table-header-grou
 ITEM_DISPLAYS = ('flex', 'inline-flex', 'grid', 'inline-grid')
 
 
+def reference_quote(quotes, depth, is_open):
+    """CSS 2.1 12.3.2: the pair of the current nesting level, the last pair beyond."""
+    if quotes == 'none':
+        return ''
+    opens, closes = (['\u201c', '\u2018'], ['\u201d', '\u2019']) if quotes == 'auto' else quotes
+    pair = opens if is_open else closes
+    return pair[min(depth, len(pair) - 1)]
+
+
+def reference_content(p, attrs, depth):
+    """Text generated by one `content` list and the quote depth after it (CSS 2.1 12.2 / 12.3.2)."""
+    out = ''
+    named = dict(zip(('colspan', 'rowspan', 'span'), attrs))
+    for kind, value in p['content'] or []:
+        if kind == 's':
+            out += value
+        elif kind == 'a':
+            out += named.get(value) or ''
+        else:
+            is_open, insert = 'open' in value, not value.startswith('no-')
+            if not is_open:
+                depth = max(0, depth - 1)
+            if insert:
+                out += reference_quote(p['quotes'], depth, is_open)
+            if is_open:
+                depth += 1
+    return out, depth
+
+
+def generated_segments(kids):
+    """Text runs produced by ::marker / ::before / ::after, in document order: (text, white-space, may_vanish)."""
+    out = []
+    state = {'depth': 0}
+
+    def marker(node, owner_display):
+        if 'list-item' not in owner_display:
+            return
+        ext = dict(INHERITED0)
+        ext.update(extra(node))
+        m = ext.get('marker') or default_marker(ext)
+        if m['display'] == 'none':
+            return
+        if m['content'] is not None:
+            text, state['depth'] = reference_content(m, node[6], state['depth'])
+            out.append((text, m['ws'], True))
+        else:
+            text = marker_text(m['lst'])
+            if text:
+                out.append((text, 'pre-wrap', True))
+
+    def pseudo(node, name):
+        p = extra(node).get(name)
+        if p is None or p['display'] == 'none' or p['content'] is None:
+            return
+        marker(node, p['display'])
+        text, state['depth'] = reference_content(p, node[6], state['depth'])
+        white = all(c in CSS_WHITE for c in text) or re.search('\\S', text) is None
+        out.append((text, p['ws'], white))
+
+    def visit(node):
+        if node[0] == 'none':
+            return
+        marker(node, node[0])
+        pseudo(node, 'before')
+        for child in node[8]:
+            visit(child)
+        pseudo(node, 'after')
+    for k in kids:
+        visit(k)
+    return out
+
+
+def document_sequence(kids, body_text):
+    """The text of the document in document order, generated content at its place (before white-space
+    processing and text-transform)."""
+    out = [body_text]
+    state = {'depth': 0}
+
+    def marker(node, owner_display):
+        if 'list-item' not in owner_display:
+            return
+        ext = dict(INHERITED0)
+        ext.update(extra(node))
+        m = ext.get('marker') or default_marker(ext)
+        if m['display'] == 'none':
+            return
+        if m['content'] is not None:
+            text, state['depth'] = reference_content(m, node[6], state['depth'])
+            out.append(text)
+        else:
+            out.append(marker_text(m['lst']) or '')
+
+    def pseudo(node, name):
+        p = extra(node).get(name)
+        if p is None or p['display'] == 'none' or p['content'] is None:
+            return
+        marker(node, p['display'])
+        text, state['depth'] = reference_content(p, node[6], state['depth'])
+        out.append(text)
+
+    def visit(node):
+        if node[0] != 'none':
+            marker(node, node[0])
+            pseudo(node, 'before')
+            out.append(node[7])
+            for child in node[8]:
+                visit(child)
+            pseudo(node, 'after')
+        out.append(node[9])
+    for k in kids:
+        visit(k)
+    return ''.join(out)
+
+
+def ordered_text_violation(kids, body_text, trees):
+    """Without tables (which move captions, headers and footers) the box tree holds the characters of the
+    document in document order."""
+    def simple(n):
+        pseudo_tt = [(extra(n).get(name) or {}).get('tt', 'none') for name in ('before', 'after', 'marker')]
+        pseudo_disp = [(extra(n).get(name) or {}).get('display', '') for name in ('before', 'after', 'marker')]
+        return (n[0] not in TABLE_DISPLAYS and n[2] != 'running' and tt_of(n) != 'full-width' and
+                'full-width' not in pseudo_tt and not any(d in TABLE_DISPLAYS for d in pseudo_disp))
+    if not all(not dom_has(k, lambda n: not simple(n)) for k in kids):
+        return None
+    expect = [c for c in document_sequence(kids, body_text) if c not in CSS_WHITE + '\xad\u200b']
+    got = [c for c in ''.join(real_text_all(t) for t in trees) if c not in CSS_WHITE + '\xad\u200b']
+    a, b = ''.join(expect).upper(), ''.join(got).upper()
+    if a != b:
+        return f'the text of the document is not in document order: {a!r} -> {b!r}'
+    return None
+
+
 def dom_segments(kids, body_text):
     """Text runs of a generated document: (text, computed white-space of the parent element, may_vanish),
     with the same rule as box_segments stated on the DOM (the display values are the specified ones, which
@@ -1365,6 +2076,11 @@ def dom_segments(kids, body_text):
     runs([body_text] + [k[9] for k in kids], 'normal', kids, 'block')
     for k in kids:
         visit(k)
+    # generated text inside a column / marker boxes of out-of-flow items … may be dropped with its parent:
+    # it is only required to be there when its own run may not vanish
+    in_column = any(dom_has(k, lambda n: n[0] in ('table-column', 'table-column-group')) for k in kids)
+    for text, ws, may_vanish in generated_segments(kids):
+        out.append((text, ws, may_vanish or in_column))
     return out
 
 
@@ -1375,7 +2091,7 @@ def document_text_violation(kids, body_text, trees, capital):
     required = collections.Counter()
     for text, ws, may_vanish in dom_segments(kids, body_text):
         if not may_vanish:
-            chars = ''.join(required_chars(text, ws, processed_by_pw=True))
+            chars = ''.join(required_chars(text, ws, processed_by_pw=True)).replace('\xad', '')
             required.update(chars.upper() if capital else chars)
     missing = required - collections.Counter(got.upper() if capital else got)
     if missing:
@@ -1394,7 +2110,7 @@ def document_violation(html, kids, body_text, rendered=False):
     else:
         trees = [formatting_structure(html)]
     running = any(dom_has(k, lambda n: n[2] == 'running') for k in kids)
-    capital = any(dom_has(k, lambda n: n[4]) for k in kids)
+    capital = any(dom_has(k, lambda n: tt_of(n) != 'none') for k in kids)
     for tree in trees:
         what = proper_children_violation(tree) if not rendered else None
         what = what or tables_violation(tree)
@@ -1402,15 +2118,26 @@ def document_violation(html, kids, body_text, rendered=False):
             what = dom_structure_violation(tree, kids)
         if what:
             return what
-    if not running and not rendered:
+    wide = any(dom_has(k, lambda n: tt_of(n) == 'full-width' or any(
+        (extra(n).get(name) or {}).get('tt') == 'full-width' for name in ('before', 'after', 'marker'))) for k in kids)
+    capital = capital or any(dom_has(k, lambda n: any(
+        (extra(n).get(name) or {}).get('tt', 'none') != 'none' for name in ('before', 'after', 'marker'))) for k in kids)
+    if not running and not rendered and not wide:
+        generated = generated_segments(kids)
         source = body_text + ''.join(dom_text(k) + k[9] for k in kids)
-        got = ''.join(real_text(t) for t in trees)
-        a, b = visible_chars(source), visible_chars(got)
+        got = ''.join(real_text(t) for t in trees).replace('\u200b', '').replace('\xad', '')
+        a = visible_chars(source.replace('\u200b', '').replace('\xad', ''))
+        b = visible_chars(got)
+        gen = visible_chars(''.join(t for t, _, _ in generated).replace('\u200b', '').replace('\xad', ''))
         if capital:
-            a, b = sorted(''.join(a).upper()), sorted(''.join(b).upper())
-        if ''.join(a) != ''.join(b):
-            return f'text of the document changed: {source!r} -> {got!r}'
-        return document_text_violation(kids, body_text, trees, capital)
+            a, b, gen = (sorted(''.join(x).upper()) for x in (a, b, gen))
+        missing, extra_chars = counter_missing(a, b), counter_missing(b, a)
+        # everything of the DOM is there; what is there beyond the DOM was generated (markers and
+        # pseudo-elements of boxes that are dropped, e.g. inside a column, need not be there)
+        if missing or counter_missing(extra_chars, gen):
+            return f'text of the document changed: {source!r} + generated {generated!r} -> {got!r}'
+        return document_text_violation(kids, body_text, trees, capital) or ordered_text_violation(
+            kids, body_text, trees)
     return None
 
 
@@ -1420,7 +2147,13 @@ def known_document(kids):
     def item(n):
         return n[0] in ('flex', 'inline-flex', 'grid', 'inline-grid') and any(
             c[0] == 'inline-table' for c in n[8])
-    return any(dom_has(k, lambda n: n[2] == 'running' or item(n)) for k in kids)
+    def marker_none(n):
+        m = extra(n).get('marker')
+        if not m or m['display'] != 'none':
+            return False
+        owners = [n[0]] + [(extra(n).get(name) or {}).get('display', '') for name in ('before', 'after')]
+        return any('list-item' in d for d in owners)      # known finding marker-display-none-crash
+    return any(dom_has(k, lambda n: n[2] == 'running' or item(n) or marker_none(n)) for k in kids)
 
 
 def finding_running_row():
@@ -1450,6 +2183,18 @@ def finding_nbsp_dropped():
         '<div style="display:table"><div style="display:table-row">a</div>&nbsp;'
         '<div style="display:table-row">b</div></div>')
     return '\xa0' not in real_text(root)
+
+
+def finding_marker_display_none():
+    """<style>li::marker{display:none}</style><ul><li>a: KeyError ('none',) in marker_to_box."""
+    import json
+    from vlib.paths import CORPUS
+    html = json.loads((CORPUS / 'C08' / 'marker_display_none_crash.json').read_text())['html']
+    try:
+        formatting_structure(html)
+    except KeyError:
+        return True
+    return False
 
 
 def finding_colspan_overlap():
@@ -1493,13 +2238,20 @@ MANIFEST = {
             'display -> box class total and of the prescribed nature, blockification table; anonymous table fix-up '
             '(wrapper > captions + table > row groups, rows in groups, cells in rows, columns in column groups, no stray '
             'table part under other parents); inline_in_block and block_in_inline structural invariants with leaf '
-            'preservation and their composition. Generated content, markers, text-transform other than capitalize, '
-            'replaced-element handlers and leaf preservation of the table fix-up are carried by correspondence only.',
-    'note': 'Trusted: Lean kernel, the AST/graph translators (box_kinds, char_table), the kind-tree abstraction of real '
-            'boxes, the fixed alphabet for Unicode categories; loops that are not structurally recursive run with fuel '
-            '(statements are about runs that end; exhaustion never occurred in the correspondence). Known findings: '
+            'preservation and their composition; the whole pipeline model (element_to_box with ::marker / ::before / '
+            '::after and content: strings and quotes, process_whitespace, process_text_transform, '
+            'anonymous_table_boxes, flex_boxes, grid_boxes, inline_in_block, block_in_inline) preserves the visible '
+            'text as a multiset of text runs, except flex/grid white-space runs and text inside table columns, which '
+            'must go (build_formatting_structure_text); the model never runs out of fuel: block_in_inline, '
+            'table_boxes_children (5m+14 steps for m children) and build_formatting_structure terminate on every '
+            'tree, so every model failure is one of the Python exceptions; content: laws (append, strings, quote '
+            'depth; attr() enters as its computed string). Replaced-element handlers, counters / target-* / url() in content, first-letter / first-line '
+            'and collapsed borders are outside the model (correspondence on documents only for the first two).',
+    'note': 'Trusted: Lean kernel, the AST/graph translators (box_kinds, char_table, content_tables), the kind-tree '
+            'abstraction of real boxes, the fixed alphabet for Unicode categories. Loops that are not structurally '
+            'recursive run with fuel; sufficiency of the fuel is proved (C08Pipeline). Known findings: '
             'colspan > 1 under a row-spanning cell shares slots; floated / absolute inline-table, inline-flex, '
             'inline-grid compute to block flow; running() table parts are never fixed up (AttributeError); an '
             'inline-table flex / grid item loses its table wrapper (TypeError in layout); NBSP-like text between table '
-            'parts is deleted.',
+            'parts is deleted; ::marker { display: none } raises KeyError.',
 }
